@@ -274,8 +274,20 @@ theorem C20_dispatch_overlapping_once (c : C) (store : List Sub) (r : Req) (rest
     List.any_eq_true.mpr ⟨f, hf, hmf⟩
   simp [this]
 
+/-- Which QoS the one invocation carries (the property does not say; the code
+is deterministic about it): in every state whose trie is in step with `store`,
+a message handed to callback `cb` carries at least `min (its QoS) (granted
+QoS)` of *every* entry of `cb` whose filter matches - the highest QoS the
+matching filters of the request allow, whatever order the trie walk (a Go map
+iteration) yields them in. -/
+theorem C20_dispatch_highest_qos (c : C) (store : List Sub) (hti : TI c.topics store) (p : Pub)
+    (hgp : good p.topic = true) (hn : validName p.topic = true) (hq2 : p.qos ≤ 2) (cb : Nat) :
+    ∀ m ∈ deliveriesTo cb (onPublish c p), ∀ e ∈ store, e.sub = cb → topicMatches e.filter p.topic = true →
+      min p.qos e.qos ≤ m.qos :=
+  deliveries_qos_max c store hti p hgp hn hq2 cb
+
 /-- the request `a/+`, `a/b` (callback 9) and a second request `a/#` (callback 4): one delivered
-`a/b` invokes callback 9 once (with the QoS of the first matching entry) and callback 4 once -/
+`a/b` invokes callback 9 once (with the higher QoS of its two matching filters) and callback 4 once -/
 def demoO : List Ev :=
   [.connect (.connack false 0),
    .api (.subscribe 1 [([97, 47, 43], 1), ([97, 47, 98], 0)] 5 9),
@@ -286,8 +298,8 @@ def demoO : List Ev :=
    .peer (.publish { qos := 0, topic := [97, 47, 99], payload := [8] })]
 
 example :
-    ((runOuts init demoO).drop 5).map (fun o => ((deliveriesTo 9 o).length, (deliveriesTo 4 o).length, o.length)) =
-      [(1, 1, 3), (1, 1, 2)] := by
+    ((runOuts init demoO).drop 5).map (fun o => ((deliveriesTo 9 o).map (·.qos), (deliveriesTo 4 o).map (·.qos), o.length)) =
+      [([1], [1], 3), ([0], [0], 2)] := by
   decide
 
 /-- the hypotheses of `C20_dispatch_overlapping_once` are met by the first request of `demoO` -/
